@@ -67,7 +67,7 @@ def run(ctx: Context) -> None:
     cg = CallGraph(p)
     spec = specificity_values(ctx)
     ctx.rule('R11.1', "specificity table: generic CF grids return the lowest value, every other convention strictly more, a subclass outranks the ancestor whose test it also satisfies; non-None results are returned only after the convention's distinguishing tests", floor=12)
-    ctx.rule('R11.2', "choice rule: conventions are tried registered-first then entry points, de-duplicated in order; matches are sorted by specificity descending with a stable sort; the first is chosen, none is refused; registering invalidates the cached list", floor=9)
+    ctx.rule('R11.2', "choice rule: conventions are tried registered-first then entry points, de-duplicated in order; matches are sorted by specificity descending with a stable sort; the first is chosen, none is refused; registering invalidates the cached list", floor=10)
     ctx.rule('R11.3', "detection is a function of the dataset: nothing reachable from check_dataset writes to the dataset, to class/global state, or reads a non-deterministic source", floor=5)
     ctx.rule('R11.4', "binding typestate: State.convention has one writer (bind_convention) whose only caller is Convention.bind behind the is_bound test; the accessor returns the bound object or constructs, binds and returns one object", floor=10)
     ctx.assume("xarray creates one accessor/state object per Dataset object and none for copies (register_dataset_accessor caching)")
@@ -243,6 +243,11 @@ def run(ctx: Context) -> None:
                   construct='del self.conventions')
         ctx.check('R11.2', len(apps) == 1, "the convention is appended to the registered list", ac, apps[0] if apps else ac.node,
                   construct='self.registered_conventions.append(convention)')
+        from .common import path_conditions
+        conds = [(norm_text(t), pol) for n_ in (apps[:1] + dels[:1]) for t, pol in path_conditions(ac, n_)]
+        ctx.check('R11.2', bool(apps) and bool(dels) and not conds and not any(isinstance(n_, ast.Return) for n_ in walk_no_nested(ac.node)),
+                  "registration is unconditional: every call appends and invalidates, whatever is already known (a convention registered by hand that is also an entry point must move to the front)",
+                  ac, apps[0] if apps else ac.node, construct=f"add_convention registers under conditions {conds}")
         gd = ctx.func(f"{REG}.get_dataset_convention")
         flow = ctx.flow(gd)
         ok = False
